@@ -13,6 +13,20 @@ REPO = os.environ.get("VERIF_REPO", "/repo")
 BUILD = os.path.join(VERIF, "build")
 DRIVER = os.path.join(BUILD, "ocaml", "driver")
 HARNESS_DIR = os.path.join(VERIF, "harness")
+if os.path.realpath(REPO) != "/repo":
+    # checks run against another checkout (a scratch worktree carrying a seeded change): build a
+    # separate copy of the harness whose path dependency points there, with its own target dir
+    import shutil
+    _alt = os.path.join(BUILD, "harness_alt_" + hashlib.sha256(os.path.realpath(REPO).encode()).hexdigest()[:8])
+    os.makedirs(os.path.join(_alt, ".cargo"), exist_ok=True)
+    if os.path.isdir(os.path.join(_alt, "src")):
+        shutil.rmtree(os.path.join(_alt, "src"))
+    shutil.copytree(os.path.join(HARNESS_DIR, "src"), os.path.join(_alt, "src"))
+    _toml = open(os.path.join(HARNESS_DIR, "Cargo.toml")).read().replace('"/repo/parser"', '"%s/parser"' % os.path.realpath(REPO)).replace('"/repo"', '"%s"' % os.path.realpath(REPO))
+    open(os.path.join(_alt, "Cargo.toml"), "w").write(_toml)
+    shutil.copy(os.path.join(HARNESS_DIR, "Cargo.lock"), os.path.join(_alt, "Cargo.lock"))
+    shutil.copy(os.path.join(HARNESS_DIR, ".cargo", "config.toml"), os.path.join(_alt, ".cargo", "config.toml"))
+    HARNESS_DIR = _alt
 HARNESS = os.path.join(HARNESS_DIR, "target", "debug", "verif_harness")
 NPROC = min(16, os.cpu_count() or 4)
 
